@@ -31,11 +31,13 @@ def run(ctx):
     return ctx.finish(
         level="proof",
         rule="hand-written scenarios (lookup/use/release/lookup, sibling in use, release twice, release untracked, "
-             "unknown digest / image, use before lookup, registry and manifest error then recovery, two images "
+             "unknown digest / image, use before lookup, registry and manifest error then recovery, lookups abandoned by "
+             "their client (context cancelled before the manifest fetch / while the first registry request of the wanted "
+             "layer is in flight, gated in the in-memory registry), two images "
              "sharing a blob, the fs.go node handlers) then random histories of lookup(api|diff|blob|info) / use / "
              "release over 4 image refs (3 eStargz layers; shared + non-eStargz + repeated layer; single layer; "
              "unknown image) x member / foreign / unknown TOC digests, with registry failures toggled per blob and "
-             "per manifest; after every op the full bookkeeping (cached instances, counts, resolve status, Done set, "
+             "per manifest and ~20% of the API lookups abandoned by their client; after every op the full bookkeeping (cached instances, counts, resolve status, Done set, "
              "refPool counts, pool directory) is compared with the model and the property predicate is evaluated "
              "on the real LayerManager; a history is distinct by its op/argument shape; racing lookups on one "
              "image are checked by the oracle and by the state they leave",
